@@ -132,6 +132,9 @@ func c13Case(c *Ctx) error {
 			if rng.Intn(15) == 0 {
 				o.Fam = map[string]string{"token": "allowed", "allowed": "token"}[o.Fam]
 			}
+			if rng.Intn(4) == 0 {
+				o.Tok = 1 + rng.Intn(3) // the request may carry another ticker; the lock's own token counts
+			}
 			if foreign && rng.Intn(3) == 0 {
 				o.Addr = users[rng.Intn(len(users))].N()
 			}
